@@ -5,6 +5,7 @@ import (
 	"bytes"
 	"errors"
 	"fmt"
+	"io"
 	"math/rand"
 	"os"
 	"runtime"
@@ -198,6 +199,8 @@ func runSecretSeq(impl string, size int, random bool, ops string, withSmaps bool
 			fail("c11-read-failed", "%s: %v", op, e)
 		}
 	}
+	var rd io.Reader
+	rdOff := 0
 	for i, o := range ops {
 		switch o {
 		case 'B':
@@ -222,20 +225,32 @@ func runSecretSeq(impl string, size int, random bool, ops string, withSmaps bool
 				return verify(b)
 			}))
 		case 'R':
+			// one io.Reader per secret, read in chunks of 7 bytes across the sequence: it never holds on to the secret,
+			// so once the secret is closed a further Read is an error and returns nothing
+			if rd == nil {
+				rd = s.NewReader()
+			}
 			buf := make([]byte, 7)
-			n, e := s.NewReader().Read(buf)
+			n, e := rd.Read(buf)
 			if closed {
-				if e == nil || n != 0 {
-					fail("c11-access-after-close-succeeded", "Reader.Read on a closed secret returned n=%d err=%v", n, e)
+				if e == nil || e == io.EOF || n != 0 {
+					fail("c11-access-after-close-succeeded", "Reader.Read (offset %d) on a closed secret returned n=%d err=%v", rdOff, n, e)
 				}
 			} else {
-				wn := 7
-				if size < 7 {
-					wn = size
+				wn := size - rdOff
+				if wn > 7 {
+					wn = 7
 				}
-				if n != wn || !bytes.Equal(buf[:n], want[:n]) {
-					fail("c11-reader-saw-other-bytes", "Reader.Read returned %d bytes %x (err=%v)", n, buf[:n], e)
+				if wn < 0 {
+					wn = 0
 				}
+				if n != wn || !bytes.Equal(buf[:n], want[rdOff:rdOff+n]) {
+					fail("c11-reader-saw-other-bytes", "Reader.Read at offset %d returned %d bytes %x (err=%v)", rdOff, n, buf[:n], e)
+				}
+				if atEnd := rdOff+n >= size; atEnd != (e == io.EOF) || (e != nil && e != io.EOF) {
+					fail("c11-read-failed", "Reader.Read at offset %d of %d: n=%d err=%v", rdOff, size, n, e)
+				}
+				rdOff += n
 			}
 		case 'C':
 			if e := s.Close(); e != nil {
